@@ -17,7 +17,7 @@ for l in open("/verif/properties.jsonl"):
 prop = {k: prop[k] for k in ("id", "title", "statement", "quantifier", "why_tests_cant", "anchors")}
 print(f"""You are working on google/mtail (Go), a log-tailing daemon that compiles a small DSL to bytecode, runs it in a VM per log line and exports metrics. You have your own scratch git worktree of the repository at {wt} — work ONLY there. Never read or write /repo or /verif. The sandbox is offline; for every shell call first run:
   export GOFLAGS=-mod=mod GOPROXY=off GOSUMDB=off GOTOOLCHAIN=local
-The full existing test suite is: cd {wt} && go test -vet=off -count=1 -timeout 25m ./...   (it passes on the unchanged worktree; takes a few minutes).
+The full existing test suite is: cd {wt} && go test -vet=off -count=1 -timeout 25m ./...   (takes a few minutes). NOTE: on the unchanged worktree exactly two subtests fail for a reason unrelated to you (internal/mtail/testdata/anonymised_dhcpd_log is an empty file in this snapshot): TestExamplePrograms/examples/dhcpd... and TestFilePipeStreamComparison/examples/dhcpd... in ./internal/mtail — 'passing the suite' means: no failures other than these two pre-existing ones.
 
 Here is a semantic property that mtail is supposed to satisfy:
 
@@ -25,7 +25,7 @@ Here is a semantic property that mtail is supposed to satisfy:
 
 Your task: write a change to mtail's non-test Go source that BREAKS this property while (a) still compiling and (b) still passing the ENTIRE existing test suite, unedited (run it and confirm; do not edit or delete existing tests). The change should look like a realistic regression — a plausible refactoring slip, 'optimisation' or off-by-one that a maintainer could make — and it must need something SPECIFIC to manifest: a particular interleaving, a fault at a particular point, a multi-step sequence of operations, an unusual input, or two cooperating sites that each look fine alone. It must NOT be something ordinary use would expose at once (e.g. do not simply make a function always return wrong results). Keep the change small (a few lines to a few dozen lines).
 
-Also write a demonstration: a new Go test file (new file, e.g. zz_seed_demo_test.go in the appropriate package directory) or small program that FAILS with your change and PASSES without it. Verify both directions yourself (e.g. with `git stash` of the source change, keeping the demo file). The demonstration must be deterministic (fails every time with the change).
+Also write a demonstration: a new Go test file (new file, e.g. zz_seed_demo_test.go in the appropriate package directory) or small program that FAILS with your change and PASSES without it. Verify both directions yourself (save your change with `git diff > {out}/patch.diff`, revert with `git checkout -- .`, re-apply with `git apply {out}/patch.diff`; NEVER use `git stash`: the stash is shared between all worktrees of the repository and other people are working in sibling worktrees). The demonstration must be deterministic (fails every time with the change).
 
 Deliverables (all under {out}/):
   patch.diff   — `git diff` of the non-test source change only (must apply with `git apply` on a clean checkout of HEAD)
